@@ -13,7 +13,7 @@ pub fn mon() -> Mon {
         run,
         finish,
         replay,
-        rule: "Every catalogue call is executed three times: into a generous buffer filled with a seeded poison, then into a buffer of exactly the reported length filled with the bitwise complement of that poison, then at length+k, then three times into a buffer that already holds the previous output (intact, last byte damaged, one byte damaged: a retry). Oracle: outcome class from the reference (Ok for every argument that fits the frame; Err for EID 0x00/0xFF, >= 8 routing entries, > 30 message types, vendor format >= 2), same length and same bytes in all runs (an unwritten byte below len differs between complementary poisons), every byte at index >= len equal to its poison, whole buffer equal to its poison on Err, and no panic. Boundary arguments (EID 0/1/0xFE/0xFF, 6-9 routing entries, 29-33 types, formats 0/1/2/255, vendor field 0-7 bytes, bodies up to and across the SMBus limit) are swept. Non-trivial = a call judged in all runs; distinct = distinct (form, arguments) hashes.",
+        rule: "Every catalogue call is executed three times: into a generous buffer filled with a seeded poison, then into a buffer of exactly the reported length filled with the bitwise complement of that poison, then at length+1 and length+k, at landmark capacities (255-261, 511-513, 1024, 4096 for one call in eight, 65535-65537 for one in sixty-four), then three times into a buffer that already holds the previous output (intact, last byte damaged, one byte damaged: a retry). Oracle: outcome class from the reference (Ok for every argument that fits the frame; Err for EID 0x00/0xFF, >= 8 routing entries, > 30 message types, vendor format >= 2), same length and same bytes in all runs (an unwritten byte below len differs between complementary poisons), every byte at index >= len equal to its poison, whole buffer equal to its poison on Err, and no panic. Boundary arguments (EID 0/1/0xFE/0xFF, 6-9 routing entries, 29-33 types, formats 0/1/2/255, vendor field 0-7 bytes, bodies up to and across the SMBus limit) are swept. Non-trivial = a call judged in all runs; distinct = distinct (form, arguments) hashes.",
         assumptions: &[
             "argument shapes as documented: 16-byte UUIDs, vendor ID fields of at most 7 bytes",
             "messages whose frame would need a byte count above 255 are judged only for 'no panic' and 'tail untouched' here; their refusal is C04's",
@@ -152,11 +152,25 @@ pub fn check(c: &Call, extra: usize, pseed: u64, rep: &mut Report) {
     }
     rep.nontrivial(hash_bytes(0x16, case().as_bytes()));
     // exact capacity, complementary poison
-    let caps = [n, n + 1, n + 1 + (extra % 37)];
-    for (k, &cap) in caps.iter().enumerate() {
-        if k == 2 && extra % 3 != 0 {
-            continue;
+    // ... then one more byte, then some more, then (one call in eight) a landmark capacity where a length
+    // kept in a narrower integer would wrap: 255-261, 511-513, 1024, 4096, and (one in sixty-four) 65535-65537
+    let mut caps = vec![n, n + 1];
+    if extra % 3 == 0 {
+        caps.push(n + 1 + (extra % 37));
+    }
+    if extra % 8 == 1 {
+        const LANDMARKS: [usize; 12] = [255, 256, 257, 258, 259, 260, 261, 511, 512, 513, 1024, 4096];
+        let l = LANDMARKS[(extra / 8) % LANDMARKS.len()];
+        if l >= n {
+            caps.push(l);
+            rep.class("capacity:landmark-255..4096");
         }
+    }
+    if extra % 64 == 2 {
+        caps.push(65535 + (extra / 64) % 3);
+        rep.class("capacity:landmark-65535..65537");
+    }
+    for (k, &cap) in caps.iter().enumerate() {
         let b = run_once(c, cap, pseed, k != 1);
         rep.eval();
         match &b.res {
